@@ -289,7 +289,9 @@ func (ps *peerScore) score(p peer.ID) float64 {
 		var topicScore float64
 
 		// P1: time in Mesh
-		if tstats.inMesh {
+		// (a zero weight means the time-in-mesh parameters may be unspecified, in
+		// particular the quantum may be zero)
+		if tstats.inMesh && topicParams.TimeInMeshWeight != 0 {
 			p1 := float64(tstats.meshTime / topicParams.TimeInMeshQuantum)
 			if p1 > topicParams.TimeInMeshCap {
 				p1 = topicParams.TimeInMeshCap
